@@ -357,6 +357,14 @@ pub fn build_muxer(cfg: &Cfg, sink: SharedSink, style: BuildStyle) -> Result<Mux
         };
     } else if gb(j, "audio_none_explicit") {
         b = b.audio(AudioCodec::None, rate, ch);
+    } else if let Some(k) = j.get("audio_then_none").and_then(|x| x.as_u64()) {
+        // a real codec is configured first and then withdrawn: the last call decides ("none" = no audio)
+        b = match k % 4 {
+            0 => b.audio(AudioCodec::Aac(muxide::api::AacProfile::Lc), 48000, 2).audio(AudioCodec::None, 0, 0),
+            1 => b.set_audio_track(AudioCodec::Opus, 48000, 2).set_audio_track(AudioCodec::None, 0, 0),
+            2 => b.audio(AudioCodec::Opus, 48000, 1).set_audio_track(AudioCodec::None, 48000, 2),
+            _ => b.set_audio_track(AudioCodec::Aac(muxide::api::AacProfile::Lc), 44100, 2).audio(AudioCodec::None, 0, 0),
+        };
     }
     match style {
         BuildStyle::Plain => {
